@@ -209,7 +209,9 @@ def work_arrays2(chunk):
     acc = fw.Acc()
     K1 = float(cm.ENV['C18']['K1'])
     K2 = float(cm.ENV['C18']['K2'])
-    for gname, k1, k2, z0, pattern, method, path in chunk:
+    for job in chunk:
+        gname, k1, k2, z0, pattern, method, path = job[:7]
+        layout = job[7] if len(job) > 7 else '1d'
         a, b = z0, z0 + 0.75
         g = G[gname][0]
         s1, s2 = KERNELS[k1], KERNELS[k2]
@@ -230,9 +232,12 @@ def work_arrays2(chunk):
             else:
                 pts.append(z0 + 0.31 + 0.17 * i)
                 exact.append(None)
-        z = np.array(pts)
+        z = layout_of(np.array(pts), layout)
         jc = dict(kind='array2', g=gname, k1=k1, k2=k2, z0=z0, pattern=pattern, method=method, path=path)
         cell = ['array2/%s' % pattern]
+        if layout != '1d':
+            jc['layout'] = layout
+            cell.append('array2/layout-' + layout)
         try:
             with warnings.catch_warnings():
                 warnings.simplefilter('ignore')
@@ -249,6 +254,10 @@ def work_arrays2(chunk):
         if val.shape != z.shape:
             prob = ('shape', 'input shape %r, result shape %r' % (z.shape, val.shape))
         else:
+            # logical (C-order) positions, whatever the memory layout of z
+            direct, val, zshape = np.asarray(direct).ravel(), val.ravel(), z.shape
+            est = est.ravel() if est.shape == zshape else est
+            z = z.ravel()
             for i, c in enumerate(pattern):
                 if c == 'R':
                     if np.isfinite(direct[i]) and not val[i] == direct[i]:
@@ -265,6 +274,67 @@ def work_arrays2(chunk):
                  outcome=prob is None)
         if prob:
             acc.violation('C18:Limit-array:two-singularities:%s' % prob[0], jc, prob[1], rank=len(pattern))
+    return acc
+
+
+def layout_of(z, layout):
+    """the 1-d array z in another shape / memory layout ('2d-*': shape (2, len/2))"""
+    if layout == '1d':
+        return z
+    z2 = z.reshape(2, -1)
+    return {'2d-C': z2, '2d-F': np.asfortranarray(z2), '2d-T': np.ascontiguousarray(z2.T).T}[layout]
+
+
+# ---------------------------------------------------------------------------------------------
+# Residue on arrays of poles: f = g(z) / sin(z - a)^p has poles of order p at a + k pi;
+# (z - z_k)^p f(z) -> g(z_k) (-1)^(k p), i.e. f = g~(z) / (z - z_k)^p with g~ analytic near z_k
+
+RES_KS = [-1, 0, 1, 2]
+
+
+def work_residue_arrays(chunk):
+    from numdifftools.limits import Residue
+    acc = fw.Acc()
+    K1 = float(cm.ENV['C18']['K1'])
+    K2 = float(cm.ENV['C18']['K2'])
+    for gname, p, a, method, path, layout in chunk:
+        g = G[gname][0]
+
+        def f(z, g=g, a=a, p=p):
+            return g(z) / np.sin(z - a) ** p
+        pts = [a + k * math.pi for k in RES_KS]
+        with mp.workdps(40):
+            exact = [complex(G[gname][1](mp.mpmathify(a) + k * mp.pi)) * (-1) ** (k * p) for k in RES_KS]
+        z = layout_of(np.array(pts), layout)
+        jc = dict(kind='residue-array', g=gname, p=p, z0=a, method=method, path=path, layout=layout)
+        cell = ['residue-array/pole%d' % p, 'residue-array/layout-' + layout]
+        try:
+            with warnings.catch_warnings():
+                warnings.simplefilter('ignore')
+                with np.errstate(all='ignore'):
+                    val, info = Residue(f, pole_order=p, method=method, path=path, full_output=True)(z)
+        except Exception as e:
+            acc.case(tuple(sorted(jc.items(), key=str)), nontrivial=True, cell=cell, outcome='raised')
+            acc.violation('C18:Residue-array:raised-%s' % type(e).__name__, jc, '%s: %s' % (type(e).__name__, e), rank=p)
+            continue
+        val = np.asarray(val)
+        est = np.asarray(info.error_estimate)
+        prob = None
+        if val.shape != z.shape or est.shape != z.shape:
+            prob = ('shape', 'input shape %r, result shape %r, estimate shape %r' % (z.shape, val.shape, est.shape))
+        else:
+            v, e = val.ravel(), np.abs(est.ravel())
+            # the poles a + k pi are rounded: (z - z_k)^p f carries a relative error ~ p |k| pi eps / |step|; the
+            # estimate of the extrapolation covers it on the unchanged tree, the floor is the usual one
+            for i, k in enumerate(RES_KS):
+                err = abs(complex(v[i]) - exact[i])
+                if not err <= K1 * float(e[i]) + K2 * EPS * (abs(exact[i]) + 1):
+                    prob = ('pole-wrong', 'pole %d (z=%r): Residue %r, exact %r, estimate %.3g; full result %r'
+                            % (k, pts[i], v[i], exact[i], float(e[i]), val.tolist()))
+                    break
+        acc.case(tuple(sorted(jc.items(), key=str)), nontrivial=True, cell=cell, outcome=prob is None)
+        if prob:
+            acc.violation('C18:Residue-array:%s' % prob[0], jc, prob[1], rank=p)
     return acc
 
 
@@ -299,11 +369,19 @@ def run(ctx):
     pats2 = [''.join(p) for L in (2, 3, 4) for p in itertools.product('ABR', repeat=L) if 'A' in p and 'B' in p]
     a2 = [(g, 'sin(w)/w', 'expm1(w)/w', z0, pat, m, pth) for g in gsel[:2] for z0 in z0s[:2] + z0s[-1:] for pat in pats2
           for m in METHODS for pth in (PATHS if not q else PATHS[:1])]
+    # the length-4 patterns again as (2, 2) arrays in C order, Fortran order and as a transposed view
+    pats4 = [p_ for p_ in pats2 if len(p_) == 4]
+    a2 += [(g, 'sin(w)/w', 'expm1(w)/w', z0, pat, m, PATHS[0], lay) for g in gsel[:1] for z0 in z0s[:1] + z0s[-1:]
+           for pat in (ctx.rotate(pats4, 12)) for m in METHODS for lay in ('2d-C', '2d-F', '2d-T')]
     acc.merge(ctx.pmap(work_arrays2, a2, chunk=40))
+    rjobs = [(g, pp, a, m, pth, lay) for g in gsel[:2] for pp in (1, 2, 3) for a in z0s[:2] + z0s[-1:] for m in METHODS
+             for pth in PATHS for lay in ('1d', '2d-C', '2d-F', '2d-T')]
+    acc.merge(ctx.pmap(work_residue_arrays, rjobs, chunk=8))
     for j in jobs[:2] + jobs[len(jobs) // 2:len(jobs) // 2 + 2]:
         acc.sample(dict(kind=j[0], g=j[1], kernel_or_pole=j[2], z0=j[3], method=j[4], path=j[5], order=j[6], step_ratio=j[7]))
     acc.sample(dict(kind='array', pattern='SRS', meaning='singular, regular, singular point in one call'))
     req = ['limit/%s/%s' % (k, p) for k in ks for p in PATHS] + ['residue/pole%d/%s' % (pp, p) for pp in (1, 2, 3) for p in PATHS]
+    req += ['array2/layout-2d-F', 'array2/layout-2d-T', 'residue-array/layout-2d-F', 'residue-array/layout-2d-T', 'residue-array/pole3']
     req += ['limit/complex-z0', 'limit/real-z0', 'limit/below', 'limit/above', 'array/SRS', 'array/RS', 'array2/RAB', 'array2/ARBR']
     rule = ('full product %d g x %d kernels x %d z0 (real and complex) x {above, below} x {radial, spiral} x order 1..8 x '
             'step_ratio {2,4,8,16} on the real Limit; Residue with poles of order 1..3, orders p+1..p+4; every S/R pattern '
@@ -320,7 +398,10 @@ def replay(case):
     if isinstance(z0, dict):
         z0 = complex(z0['re'], z0['im'])
     if case['kind'] == 'array2':
-        a = work_arrays2([(case['g'], case['k1'], case['k2'], z0, case['pattern'], case['method'], case['path'])])
+        a = work_arrays2([(case['g'], case['k1'], case['k2'], z0, case['pattern'], case['method'], case['path'],
+                           case.get('layout', '1d'))])
+    elif case['kind'] == 'residue-array':
+        a = work_residue_arrays([(case['g'], case['p'], z0, case['method'], case['path'], case['layout'])])
     elif case['kind'] == 'array':
         a = work_arrays([(case['g'], case['kernel'], z0, case['pattern'], case['shape'])])
     elif case['kind'] == 'limit':
